@@ -76,7 +76,7 @@ func runC10(r *kit.Run) {
 	ends := []string{"run-returns", "close", "parent-cancel"}
 	whens := []string{"after-start-returned", "before-start-returned"}
 	callers := []int{1, 4, 16}
-	reps := int64(r.Scale(1, 60))
+	reps := int64(r.Scale(1, 180))
 	stride := int64(r.Scale(7, 1)) // quick: every 7th cell (offset by seed) ~ 660 cells
 	offset := int64(r.Seed % uint64(stride))
 	cell := int64(0)
@@ -96,7 +96,7 @@ func runC10(r *kit.Run) {
 			}
 		}
 	}
-	nh := int64(r.Scale(120, 4000))
+	nh := int64(r.Scale(120, 12000))
 	for i := int64(0); i < nh && !r.Stopped(); i++ {
 		if !r.Mine(1_000_000 + i) {
 			continue
